@@ -4,10 +4,14 @@ REAL_RING = ['lib/ringbuffer.c', 'lib/ringbuffer_helper.c', 'lib/unix.c (real /d
 
 HARNESSES = {
     'ring_coarse': {'src': ['harness/ring_coarse.cc'], 'flavours': {}, 'rt': []},
+    'map_iter': {'src': ['harness/map_iter.cc'], 'flavours': {}, 'rt': []},
+    'loop_sim': {'src': ['harness/loop_sim.cc'], 'flavours': {}, 'rt': []},
     'ring_conc_t': {'src': ['harness/ring_conc.cc'], 'flavours': {'ringbuffer.c': 'tsan', 'ringbuffer_helper.c': 'tsan'},
                     'rt': ['rt_tsan.o'], 'cxxflags': ['-DHARNESS_NAME="ring_conc_t"', '-DORDER_CHECK=1']},
     'ring_conc_a': {'src': ['harness/ring_conc.cc'], 'flavours': {'ringbuffer.c': 'acc', 'ringbuffer_helper.c': 'acc'},
                     'rt': ['rt_sancov.o'], 'cxxflags': ['-DHARNESS_NAME="ring_conc_a"']},
+    'array_conc': {'src': ['harness/array_conc.cc'], 'flavours': {'array.c': 'acc'},
+                   'rt': ['rt_sancov.o'], 'cxxflags': ['-DHARNESS_NAME="array_conc"']},
 }
 
 PROPS = {
@@ -68,6 +72,129 @@ PROPS['C11'] = {
     'assumptions': ['read-back happens between logger/writer operations, never inside one'],
 }
 
+REAL_LOOP = ['lib/loop.c', 'lib/loop_job.c', 'lib/loop_timerlist.c', 'include/tlist.h', 'lib/loop_poll.c', 'lib/loop_poll_epoll.c',
+             'lib/array.c', 'lib/util.c', 'kernel epoll, pipes and signal delivery (real, called non-blocking)']
+STUB_LOOP = ['clock_gettime / clock_getres / gettimeofday (virtual clock)', 'blocking in epoll_wait (zero-timeout real call + virtual time jump)',
+             'random() (full-period sequence)', 'outside world: bytes arriving, peers closing, signals (scripted in the plan)']
+
+PROPS['C08'] = {
+    'parts': [{'harness': 'loop_sim', 'chunk': 200}],
+    'quick_s': 40, 'thorough_s': 900,
+    'level_quick': 'exploration', 'level_thorough': 'exploration',
+    'rule': 'one evaluation = one seeded loop program (registrations, operations bound to the n-th invocation of a callback, external '
+            'events at virtual times, asynchronous signals at libc-call indices; seeded clock base/resolution, EINTR and shuffled/shortened '
+            'epoll batches) run on the real qb_loop against a registration model; non-trivial = at least two callbacks over at least two '
+            'iterations; distinct = distinct hash of the event sequence',
+    'level_text': 'seeded search over add/modify/delete histories issued from outside and inside callbacks, with readiness, signals and time '
+                  'under simulator control; exactly-once, never-after-delete, stale-handle, FIFO and stop oracles plus ASan; samples histories',
+    'level_note': 'liveness is judged against an iteration bound derived from the model (4 items per level per turn, a turn every third '
+                  'iteration) extended by injected batch shortening; descriptors are closed only after poll_del or a negative return '
+                  '(the documented use); epoll back-end only',
+    'technique': 'deterministic simulation: virtual clock, scripted external events and asynchronous signals, EINTR and epoll batch faults, '
+                 'registration reference model, ddmin replay',
+    'design_ref': 'DESIGN.md 4/C08',
+    'real': REAL_LOOP, 'stub': STUB_LOOP,
+    'assumptions': ['single loop thread', 'epoll back-end'],
+}
+PROPS['C09'] = {
+    'parts': [{'harness': 'loop_sim', 'chunk': 200}],
+    'quick_s': 40, 'thorough_s': 900,
+    'level_quick': 'exploration', 'level_thorough': 'exploration',
+    'rule': 'one evaluation = one seeded timer program (1..40 timers with durations from 0 to 2^64-1 ns incl. the 2^31/2^32 ms and overflow '
+            'boundaries, add/delete/query histories, jobs, busy callbacks, clock base up to 2^63, clock resolution 1 ns..10 ms) on the real '
+            'loop under a virtual clock; every epoll_wait timeout and every dispatch instant is checked in 128-bit arithmetic; '
+            'non-trivial = at least two callbacks over two iterations; distinct = distinct event-sequence hash',
+    'level_text': 'seeded search over durations, heap shapes and histories with exact virtual time: never-early, expiry order, no sleep past '
+                  'earliest expiry + slack, never blocks indefinitely with a timer pending, query consistency',
+    'level_note': 'slack allowed = one clock tick + 1 ms rounding + the 50 ms job throttle whenever any job is pending (an over-approximation of '
+                  '"jobs were just queued"); dispatch lateness is bounded in iterations after the first wake-up past expiry',
+    'technique': 'deterministic simulation with a discrete-event virtual clock (every clock read and epoll timeout under simulator control), '
+                 'timer-set reference model, ddmin replay',
+    'design_ref': 'DESIGN.md 4/C09',
+    'real': REAL_LOOP, 'stub': STUB_LOOP,
+    'assumptions': ['single loop thread', 'monotonic clock never goes backwards'],
+}
+PROPS['C10'] = {
+    'parts': [{'harness': 'loop_sim', 'chunk': 50}],
+    'quick_s': 40, 'thorough_s': 900,
+    'level_quick': 'exploration', 'level_thorough': 'exploration',
+    'rule': 'one evaluation = one seeded steady-state workload (self-re-adding jobs, always-ready descriptors, zero-delay re-arming timers at '
+            'seeded priorities, plus finite bursts) run for 50..100000 loop iterations (one epoll_wait = one iteration) at no wall-clock cost; '
+            'per-level dispatch counts are checked over every window of three iterations; non-trivial = at least two callbacks over two '
+            'iterations; distinct = distinct event-sequence hash',
+    'level_text': 'seeded search over continuously-pending workload mixes and run lengths; window-of-three no-starvation oracle and '
+                  'HIGH >= MED >= LOW dispatch-opportunity oracle',
+    'level_note': '"pending work" is counted only for items pending for at least three iterations (so that they have certainly been moved to the '
+                  'dispatch list), which makes the oracle slightly weaker than the statement and never stronger',
+    'technique': 'deterministic simulation: virtual clock and always-ready descriptors make continuously pending load free, iteration-window '
+                 'oracle, ddmin replay',
+    'design_ref': 'DESIGN.md 4/C10',
+    'real': REAL_LOOP, 'stub': STUB_LOOP,
+    'assumptions': ['single loop thread'],
+}
+
+PROPS['C19'] = {
+    'parts': [{'harness': 'array_conc', 'chunk': 200}],
+    'quick_s': 40, 'thorough_s': 600,
+    'level_quick': 'exploration', 'level_thorough': 'exploration',
+    'rule': 'one evaluation = one seeded (configuration, workload, schedule) triple: 1-4 tasks on one shared qb_array_t (element size, '
+            'initial size, autogrow, new_bin_cb and always-moving realloc chosen by the seed) doing index / grow / use-saved-pointer '
+            'operations over the whole index range (negative, >= 65536, just beyond the size, bin edges), preemptible at every access '
+            'array.c makes to the array header and to the bin pointer table and at every lock call; a per-index model (first address, '
+            'last pattern written, bounds on the size) is checked after every call and in a final sequential pass over every element '
+            'ever obtained; non-trivial = at least two tasks each completed a successful index and the baton changed hands more than '
+            'twice (single-task baseline runs: at least one growth and one re-read of a written element); distinct = distinct '
+            'fingerprint of the (yield site, task switched to) sequence combined with the (operation, argument, outcome) sequence',
+    'level_text': 'seeded search over interleavings of index/grow calls at shared-access granularity (sequentially consistent), element '
+                  'sizes, initial sizes, autogrow settings and sparse index sequences over the full range, with ASan watching the '
+                  'bin table and the bins; samples, does not enumerate',
+    'level_note': 'interleavings are sequentially consistent; scheduling points come from compiler instrumentation of array.c '
+                  '(trace-loads/stores) restricted to the array header and the current bin pointer table, plus the lock calls, so '
+                  'accesses the compiler merges are not separate points; return codes under concurrency are judged only where the '
+                  'model can know them (range error demanded only when no grow covering the index had even started before the call '
+                  'returned, success demanded only when the size already covered the index when the call started); allocation '
+                  'failure is not injected',
+    'technique': 'deterministic simulation: seeded scheduler over real threads with one baton, preemption at every instrumented shared '
+                 'access and lock call, realloc forced to move (fault kind "realloc always moves"), address/content reference model, '
+                 'ASan, ddmin replay',
+    'design_ref': 'DESIGN.md 4/C19',
+    'real': ['lib/array.c', 'lib/util.c (qb_thread_lock)', 'glibc/ASan allocator'],
+    'stub': ['pthread mutex/spin lock waiting (state kept by the shim)', 'thread scheduling', 'realloc placement (always moves in 7 of 8 runs)'],
+    'assumptions': ['sequentially consistent interleavings',
+                    'two threads never write the same element (indices are partitioned among the tasks): the property is about the library, not about user races',
+                    'calloc/realloc do not fail'],
+}
+
+PROPS['C18'] = {
+    'parts': [{'harness': 'map_iter', 'chunk': 400}],
+    'quick_s': 35, 'thorough_s': 600,
+    'level_quick': 'exploration', 'level_thorough': 'exploration',
+    'rule': 'one evaluation = one seeded interleaving, at operation granularity, of one mutator (put new / replace, rm of a present key, '
+            'an absent key, the key a given walker is positioned on, the last remaining key, all keys; get; count) with 1-4 walkers '
+            '(iter_create or trie pref_iter_create, iter_next, iter_free at any point, qb_map_foreach whose callback may delete the '
+            'current item and may abort) on a fresh hashtable, skiplist or trie over a universe of 8-40 prefix-sharing keys; the plan '
+            'order is the schedule; a dictionary model with, per iteration, the sets of keys present throughout / ever present is '
+            'checked at every returned key, at every completed iteration and, whenever no iterator is open and again after the last '
+            'one is freed, against get of every key, count, rm results and a fresh full iteration; non-trivial = at least one iteration '
+            'completed and was judged with a mutation during it; distinct = distinct hash of the (task, operation, arguments, outcome) sequence',
+    'level_text': 'seeded search over operation-level interleavings of iterator create/next/free/foreach with put/rm/get/count on one map, '
+                  'all three implementations, up to four simultaneously open iterators, with ASan watching every node; samples, does not enumerate',
+    'level_note': 'operation granularity only (the map API is single-threaded; nothing preempts inside a call); while an iterator is open the '
+                  'results of get/rm/count are executed but not judged (the property promises dictionary behaviour once the iterators are gone); '
+                  'iteration order is not judged; a put that replaces a value counts as an insertion (at-least-once rule); a value announced '
+                  'through QB_MAP_NOTIFY_FREE must not be announced again or handed out later (the header tells callers to free values there); '
+                  'empty keys and empty prefixes are not generated; allocation failure is not injected',
+    'technique': 'deterministic simulation (seeded workload and operation-level schedule of cooperating parties, dictionary + per-iteration key-set '
+                 'reference model, ASan, ddmin replay); no fault is injected for this property',
+    'design_ref': 'DESIGN.md 4/C18',
+    'real': ['lib/map.c', 'lib/hashtable.c', 'lib/skiplist.c', 'lib/trie.c', 'glibc/ASan allocator'],
+    'stub': ['random() seed (skiplist levels): srandom() from the plan after qb_skiplist_create reseeds from the clock',
+             'scheduling of the parties (the plan order is the schedule)'],
+    'assumptions': ['single caller: parties interleave between API calls, never inside one',
+                    'keys are non-empty NUL-terminated strings owned by the caller for the life of the process',
+                    'values are non-NULL'],
+}
+
 NOT_APPLICABLE = {
     'C12': 'log routing is a pure function of one caller\'s configuration and call-site sequence: no schedule, clock, I/O outcome, peer or crash point for a simulator to control (DESIGN.md section 5)',
     'C13': 'log line formatting is a pure function of (format string, message, call-site fields, timestamp, limit): input generation alone would be fuzzing, not simulation (DESIGN.md section 5)',
@@ -77,4 +204,4 @@ NOT_APPLICABLE = {
 }
 # claimed in DESIGN.md but whose check is not built yet in this tree
 PENDING = {k: 'check not built yet (designed in DESIGN.md section 4); will be claimed when its harness lands' for k in
-           ['C01', 'C02', 'C03', 'C04', 'C05', 'C06', 'C08', 'C09', 'C10', 'C11', 'C15', 'C16', 'C18', 'C19']}
+           ['C02', 'C03', 'C04', 'C05', 'C06', 'C15', 'C16']}
